@@ -1,5 +1,6 @@
 """Registry: which stages decide which property, plus the evidence metadata."""
 from vcheck import build, run_rt, log
+import bedb
 
 
 def rt_stage(prop, tier, seed, replay):
@@ -175,3 +176,17 @@ PROPS["C18"] = rt_prop(
     "distinct = (endpoint, status, content-type class, body class, chunk-path class, error position class, flavour)",
     ["Content-Type with parameters or different case, 2xx statuses other than 200/204, a 204 with a body and invalid UTF-8 skipped by unit endpoints are observed-only"],
     level="fault_enumeration")
+
+PROPS["C08"] = {
+    "stages": [bedb.c08_stage], "engine": "gen",
+    "technique": "runtime monitoring of the real generator: random cyclic type graphs -> conjure_codegen (library) -> emitted #[path|query|header|body(..., safe)] "
+                 "attributes parsed with syn, compared with a greatest-fixpoint reference model written from the property text; metamorphic check over 6 "
+                 "permutations of every definition",
+    "level": "exploration",
+    "level_text": "Held on every generated definition: the set of arguments marked safe equals the model's, identically for the blocking and async traits "
+                  "and for all 6 declaration orders.",
+    "rule": "random definitions biased to cycles (self loops, mutual recursion through optional/list/map/union) with SAFE/UNSAFE/DO_NOT_LOG/unannotated leaves and "
+            "explicit/legacy/undeclared arguments; distinct = (decision source, reaches a cycle?, parameter kind, expected marker, graph size)",
+    "assumptions": COMMON_ASSUME + ["the IR generator stays inside the validity envelope of DESIGN.md Appendix A",
+                                   "observation = attributes of the emitted server traits (what conjure-macros turns into SafeParams inserts, see C09)"],
+}
